@@ -233,6 +233,19 @@ class Gen:
         self.touch(rec["out"], c.name)
         return rec
 
+    def g_csv(self, world, infos):
+        r = self.rng
+        cells = ["", " ", "1", "2", "2.5", "abc", " 7 ", "1e3", "nan", "inf", "True", "-0", "0x1", "x y", "3"]
+        ncols = r.randint(1, 3)
+        nrows = r.randint(0, 4)
+        header = r.random() < 0.8
+        rows = [[r.choice(["a", "b", "c", "a b", ""]) for _ in range(ncols)]] if header else []
+        colpool = [r.sample(cells, r.randint(1, 4)) for _ in range(ncols)]
+        for _ in range(nrows):
+            k = ncols if r.random() < 0.8 else r.randint(1, ncols)      # short records are padded
+            rows.append([r.choice(colpool[j]) for j in range(k)])
+        return {"op": "csv", "out": self.new_h(), "rows": rows, "header": header}
+
     def g_vnew(self, world, infos):
         r = self.rng
         d = None if r.random() < 0.3 else V.pick_value(r, self.kind(), 0.0)
